@@ -39,7 +39,12 @@
      inspect_pin              DataRead.inspect (inspect_loop / all_equal / drop_hyphen_subs) on Sections.body_lines
                                                                     = the whole of reader.inspect_data_section, the file object
                                                                       being the list of the lines that remain
-                              (FuncsPinInspect; imports DataRead / Sections: not re-exported here)
+     inspect_twice_pin, read_policy_tables   DataRead.inspect_twice = the inspect / accept / inspect-again statements of
+                                                                      LASFile.read; default_subs / comma_delim_subs = what
+                                                                      defaults.READ_POLICIES and READ_SUBS hold
+     engine_items_pin, engine_array_pin      DataRead.normal_items   = the generator `items` of the normal engine (the list it
+                                                                      yields) / np.array of it over Sections.body_lines
+                              (FuncsPinInspect, FuncsPinEngine; import DataRead / Sections: not re-exported here)
 
    One file per pinned function or group (FuncsPinConfigure, FuncsPinSectionType, FuncsPinRoute,
    FuncsPinSectionParse, FuncsPinItems, FuncsPinStandardize, FuncsPinWriter, FuncsPinNum, FuncsPinParser, FuncsPinParserInit,
